@@ -115,9 +115,14 @@ def fn_source(fn):
     return ent + (path,)
 
 
+SPECS_DIR = os.path.join(os.path.dirname(os.path.dirname(os.path.abspath(__file__))), 'specs') + os.sep
+
+
 def in_repo(fn):
+    """Functions whose source is interpreted: the repository, and the library-model classes under /verif/specs."""
     try:
-        return os.path.realpath(fn.__code__.co_filename).startswith(os.path.realpath(REPO) + os.sep)
+        f = os.path.realpath(fn.__code__.co_filename)
+        return f.startswith(os.path.realpath(REPO) + os.sep) or f.startswith(SPECS_DIR)
     except AttributeError:
         return False
 
@@ -359,6 +364,8 @@ class Interp:
             return True
         if isinstance(v, self.models.MatchTruth):
             return self.truth(v.b, node)
+        if hasattr(v, 'pyvc_truth'):
+            return v.pyvc_truth(self)
         if isinstance(v, self.models.IndexedSeq):
             return True
         if isinstance(v, SymMap):
@@ -438,6 +445,10 @@ class Interp:
             return BoundMethod(raw, inst) if inst is not None else raw
         if isinstance(raw, types.MemberDescriptorType):
             raise RaiseSig(ExcVal(AttributeError, (raw.__name__,)))
+        g = getattr(type(raw), '__get__', None)
+        if inst is not None and isinstance(g, types.FunctionType) and in_repo(g):
+            # a descriptor class defined in the repository (e.g. PkgConfigInfo._simple_property)
+            return self.call(g, [raw, inst, cls], {}, node)
         return raw
 
     def hasattr(self, v, name, node=None):
@@ -601,7 +612,7 @@ class Interp:
                     raise RaiseSig(ExcVal(ValueError, e.args))
             raise OutOfSubset('enum construction from symbolic value', node)
         mod = getattr(cls, '__module__', '')
-        if mod.startswith('bfg9000'):
+        if mod.startswith('bfg9000') or mod.startswith('specs.'):
             if issubclass(cls, tuple) and hasattr(cls, '_fields'):     # namedtuple
                 vals = list(args) + [kwargs[f] for f in cls._fields[len(args):]]
                 o = Obj(cls, dict(zip(cls._fields, vals)))
@@ -926,6 +937,11 @@ class Interp:
     # ---- expressions -------------------------------------------------------------------------------
 
     def eval(self, e, fr):
+        act = self.active
+        if act is not None and act.expr_overrides:
+            r = act.expr_override(self, e, fr)
+            if r is not NotImplemented:
+                return r
         meth = getattr(self, 'e_' + type(e).__name__, None)
         if meth is None:
             raise OutOfSubset('expression %s' % type(e).__name__, e)
